@@ -929,4 +929,263 @@ theorem token_render (t : Token) (rest : List Char) (p : Pos) (hs : SupportedTok
         simpa [renderTok] using this
       · simp [sharpTok] at h
 
+/-! ## token sequences -/
+
+theorem notWs_of_ns {c : Char} (h : c ∉ specials) : isWs c = false ∧ c ≠ ';' := by
+  simp only [specials, List.mem_cons, List.not_mem_nil, or_false, not_or] at h
+  simp [isWs, h]
+
+/-- the text of a supported token starts with a character that is not atmosphere -/
+theorem renderTok_head (t : Token) (hs : SupportedTok t) :
+    ∃ c r, renderTok t = c :: r ∧ isWs c = false ∧ c ≠ ';' := by
+  have ns : ∀ {c : Char} (r : List Char), c ∉ specials →
+      ∃ c' r', c :: r = c' :: r' ∧ isWs c' = false ∧ c' ≠ ';' :=
+    fun r h => ⟨_, r, rfl, notWs_of_ns h⟩
+  cases t with
+  | ident s =>
+    simp only [renderTok]
+    split
+    · rename_i hp
+      cases hl : s.toList with
+      | nil => rw [hl] at hp; simp [isPlainIdent] at hp
+      | cons c cs =>
+        rw [hl, isPlainIdent.eq_def] at hp
+        dsimp only at hp
+        apply ns
+        by_cases hi : isInitial c = true
+        · exact not_mem_specials_of_class isInitial (by decide) hi
+        rw [if_neg hi] at hp
+        by_cases h2 : (c = '+' || c = '-') = true
+        · simp only [Bool.or_eq_true, decide_eq_true_eq] at h2
+          rcases h2 with rfl | rfl <;> decide
+        rw [if_neg h2] at hp
+        by_cases h3 : c = '.'
+        · subst h3; decide
+        · rw [if_neg h3] at hp; cases hp
+    · exact ⟨'|', _, rfl, by decide, by decide⟩
+  | prim pr =>
+    cases pr with
+    | str s => exact ⟨'"', _, rfl, by decide, by decide⟩
+    | chr c => exact ⟨'#', _, rfl, by decide, by decide⟩
+    | bool b => exact ⟨'#', _, rfl, by decide, by decide⟩
+    | int i =>
+      obtain ⟨first, ds, h1, -, h3⟩ := showInt_shape i
+      simp only [renderTok, h1]
+      apply ns
+      rcases h3 with h | ⟨h | h, -⟩
+      · exact isDigit_ns h
+      · subst h; decide
+      · subst h; decide
+    | rat n d =>
+      obtain ⟨first, ds, h1, -, h3⟩ := showInt_shape n
+      simp only [renderTok, h1, List.cons_append]
+      apply ns
+      rcases h3 with h | ⟨h | h, -⟩
+      · exact isDigit_ns h
+      · subst h; decide
+      · subst h; decide
+    | real tx =>
+      obtain ⟨r, hr, rfl⟩ := hs
+      obtain ⟨h1, h2, h3, -⟩ := RealLit.wf_inv hr
+      simp only [renderTok, String.toList_ofList, RealLit.text]
+      cases hip : r.ip with
+      | nil => exact absurd hip h2
+      | cons x ip =>
+        have hx : isDigit x = true := h3 x (by simp [hip])
+        rcases isSign_cases h1 with hs | hs | hs <;> rw [hs]
+        · exact ns _ (isDigit_ns hx)
+        · exact ns _ (by decide)
+        · exact ns _ (by decide)
+  | _ => exact ⟨_, _, rfl, by decide, by decide⟩
+
+theorem renderTok_startsTok (t : Token) (hs : SupportedTok t) (rest : List Char) :
+    startsTok (renderTok t ++ rest) = true := by
+  obtain ⟨c, r, h1, h2, h3⟩ := renderTok_head t hs
+  simp [h1, startsTok, h2, h3]
+
+theorem renderTok_length_pos (t : Token) (hs : SupportedTok t) : 0 < (renderTok t).length := by
+  obtain ⟨c, r, h1, -⟩ := renderTok_head t hs
+  simp [h1]
+
+/-- the lexer on a rendered token sequence -/
+theorem allAux_render (ts : List Token) (layout : List (List Char))
+    (hs : ∀ t ∈ ts, SupportedTok t) (hl : ValidLayout ts layout) (fuel : Nat) (p : Pos)
+    (acc : List LToken) (hf : (interleave ts layout).length < fuel) :
+    ∃ lts, allAux fuel (interleave ts layout) p acc = (acc.reverse ++ lts, none) ∧
+      lts.map (·.tok) = ts := by
+  induction ts generalizing layout fuel p acc with
+  | nil =>
+    cases fuel with
+    | zero => omega
+    | succ fuel =>
+      match layout, hl with
+      | [a], hl =>
+        simp only [ValidLayout] at hl
+        obtain ⟨p', hp⟩ := skipAtmosphere_trail false a p hl
+        refine ⟨[], ?_, rfl⟩
+        simp [interleave, allAux, next, hp, token]
+  | cons t ts ih =>
+    cases fuel with
+    | zero => omega
+    | succ fuel =>
+      match layout, hl with
+      | a :: l, hl =>
+        simp only [ValidLayout] at hl
+        obtain ⟨ha, hfo, hl'⟩ := hl
+        have hst := hs t (by simp)
+        simp only [interleave, List.headD_cons, List.tail_cons] at hf ⊢
+        have hnext : next (a ++ (renderTok t ++ interleave ts l)) p
+            = .ok (some (t, interleave ts l, advs (renderTok t) (advs a p))) := by
+          unfold next
+          rw [skipAtmosphere_atmos false a _ p ha (renderTok_startsTok t hst _)]
+          exact token_render t _ _ hst hfo
+        have hlen := renderTok_length_pos t hst
+        simp only [List.length_append] at hf
+        obtain ⟨lts, g1, g2⟩ := ih l (fun t ht => hs t (by simp [ht])) hl' fuel
+          (advs (renderTok t) (advs a p))
+          (⟨t, some (advs (renderTok t) (advs a p))⟩ :: acc) (by omega)
+        refine ⟨⟨t, some (advs (renderTok t) (advs a p))⟩ :: lts, ?_, by simp [g2]⟩
+        simp [allAux, hnext, g1]
+
+theorem all_render (ts : List Token) (layout : List (List Char))
+    (hs : ∀ t ∈ ts, SupportedTok t) (hl : ValidLayout ts layout) :
+    (Lex.all (interleave ts layout)).1.map (·.tok) = ts ∧
+      (Lex.all (interleave ts layout)).2 = none := by
+  obtain ⟨lts, h1, h2⟩ := allAux_render ts layout hs hl _ (1, 1) [] (Nat.lt_succ_self _)
+  unfold Lex.all
+  rw [h1]
+  exact ⟨by simpa using h2, rfl⟩
+
+theorem startsSharp_cons_eq (c : Char) (x y : List Char) :
+    startsSharp (c :: x) = startsSharp (c :: y) := by
+  by_cases hc : c = '#'
+  · subst hc; rfl
+  · have : ∀ z, startsSharp (c :: z) = false := by
+      intro z; unfold startsSharp; split
+      · rename_i heq; simp at heq; exact absurd heq.1 hc
+      · rfl
+    rw [this, this]
+
+theorem followOK_append (t : Token) (c : Char) (x y : List Char)
+    (h : followOK t (c :: x) = true) : followOK t (c :: x ++ y) = true := by
+  unfold followOK at h ⊢
+  rw [List.cons_append, startsSharp_cons_eq c (x ++ y) x]
+  split <;> simpa [startsDelim] using h
+
+/-- a non-empty separator ends every token -/
+theorem followOK_of_sep (t : Token) (sep x : List Char) (h : isTrail false sep = true)
+    (hne : sep ≠ []) : followOK t (sep ++ x) = true := by
+  cases sep with
+  | nil => exact absurd rfl hne
+  | cons c r =>
+    have hc : isWs c = true ∨ c = ';' := by
+      simp only [isTrail] at h
+      by_cases hw : isWs c = true
+      · exact Or.inl hw
+      · right
+        simp only [hw] at h
+        by_cases hc : c = ';'
+        · exact hc
+        · simp [hc] at h
+    have hd : isDelimiter c = true := by
+      rcases hc with hc | rfl
+      · simp [isDelimiter, hc]
+      · decide
+    have hat : c ≠ '@' := by
+      rintro rfl
+      rcases hc with hc | hc
+      · revert hc; decide
+      · revert hc; decide
+    unfold followOK
+    split
+    · simp [hat]
+    · simp [startsDelim, hd]
+
+theorem isTrail_of_isAtmos (b : Bool) (a : List Char) (h : isAtmos b a = true) :
+    isTrail b a = true := by
+  induction a generalizing b with
+  | nil => rfl
+  | cons c a ih =>
+    cases b
+    · simp only [isAtmos] at h
+      simp only [isTrail]
+      split
+      · rename_i hw; simp only [hw, if_true] at h; exact ih _ h
+      · rename_i hw
+        simp only [hw] at h
+        split
+        · rename_i hc; simp only [hc, if_true] at h; exact ih _ h
+        · rename_i hc; simp [hc] at h
+    · simp only [isAtmos] at h
+      simp only [isTrail]
+      split
+      · rename_i hn; simp only [hn, if_true] at h; exact ih _ h
+      · rename_i hn; simp only [hn] at h; exact ih _ h
+
+/-- the explicit gap condition implies the validity used by `lex_render` -/
+theorem validLayout_of_gaps (ts : List Token) (layout : List (List Char))
+    (hs : ∀ t ∈ ts, SupportedTok t) (h : ValidGaps ts layout) : ValidLayout ts layout := by
+  induction ts generalizing layout with
+  | nil =>
+    match layout, h with
+    | [a], h => exact h
+  | cons t ts ih =>
+    match layout, h with
+    | a :: l, h =>
+      simp only [ValidGaps] at h
+      obtain ⟨ha, hg, hl⟩ := h
+      have hl' := ih l (fun t ht => hs t (by simp [ht])) hl
+      refine ⟨ha, ?_, hl'⟩
+      cases ts with
+      | nil =>
+        match l, hl with
+        | [b], hl =>
+          simp only [ValidGaps] at hl
+          simp only [interleave, List.headD_cons]
+          cases b with
+          | nil =>
+            simp only [gapOK, List.headD_cons, List.isEmpty_nil, Bool.not_true, List.head?_nil,
+              Bool.false_or, bne_iff_ne, ne_eq] at hg
+            unfold followOK
+            split
+            · exact absurd rfl hg
+            · simp [startsDelim]
+          | cons c r =>
+            have := followOK_of_sep t (c :: r) [] hl (by simp)
+            simpa using this
+      | cons t2 ts' =>
+        match l, hl with
+        | b :: l', hl =>
+          simp only [ValidGaps] at hl
+          simp only [interleave, List.headD_cons, List.tail_cons]
+          cases b with
+          | nil =>
+            simp only [gapOK, List.headD_cons, List.isEmpty_nil, Bool.not_true, List.head?_cons,
+              Bool.false_or] at hg
+            obtain ⟨c, r, h1, -⟩ := renderTok_head t2 (hs t2 (by simp))
+            rw [h1] at hg ⊢
+            simpa using followOK_append t c r _ hg
+          | cons c r =>
+            exact followOK_of_sep t (c :: r) _ (isTrail_of_isAtmos _ _ hl.1) (by simp)
+
+instance decValidLayout : (ts : List Token) → (l : List (List Char)) → Decidable (ValidLayout ts l)
+  | [], [] => isFalse (by simp [ValidLayout])
+  | [], [a] => inferInstanceAs (Decidable (isTrail false a = true))
+  | [], _ :: _ :: _ => isFalse (by simp [ValidLayout])
+  | _ :: _, [] => isFalse (by simp [ValidLayout])
+  | t :: ts, a :: l =>
+    have := decValidLayout ts l
+    inferInstanceAs (Decidable (isAtmos false a = true ∧ followOK t (interleave ts l) = true ∧
+      ValidLayout ts l))
+
+instance decValidGaps : (ts : List Token) → (l : List (List Char)) → Decidable (ValidGaps ts l)
+  | [], [] => isFalse (by simp [ValidGaps])
+  | [], [a] => inferInstanceAs (Decidable (isTrail false a = true))
+  | [], _ :: _ :: _ => isFalse (by simp [ValidGaps])
+  | _ :: _, [] => isFalse (by simp [ValidGaps])
+  | t :: ts, a :: l =>
+    have := decValidGaps ts l
+    inferInstanceAs (Decidable (isAtmos false a = true ∧ gapOK t (l.headD []) ts.head? = true ∧
+      ValidGaps ts l))
+
 end Ruschm.Text
